@@ -1,15 +1,25 @@
 /*@UNIT
 {
-  "property": "C02",
-  "unit": "tls13_gcm_decrypt",
-  "function": "csAesGcmDecryptTls13",
-  "source": "matrixssl/tls13CipherSuite.c",
-  "keep_bodies": ["tls13MakeReadNonce", "tls13MakeDecryptAad", "psAesIncrSec"],
-  "assumed": ["psAesReadyGCM (model: records nonce and AAD)", "psAesDecryptGCM (model: verdict chosen by the harness input; returns plaintext length or PS_AUTH_FAIL; assumption: a real tag mismatch makes it return < 0)"],
-  "mode": "proof",
-  "why_proof": "all loops have constant bounds (8, 12), fully unwound with unwinding assertions; the record is an allocation of exactly len bytes for EVERY 16-bit len (no loop of the function depends on len)",
-  "unwind": 14,
-  "native_replay": true
+ "property": "C02",
+ "unit": "tls13_gcm_decrypt",
+ "function": "csAesGcmDecryptTls13",
+ "source": "matrixssl/tls13CipherSuite.c",
+ "keep_bodies": [
+  "tls13MakeReadNonce",
+  "tls13MakeDecryptAad",
+  "psAesIncrSec"
+ ],
+ "assumed": [
+  "psAesReadyGCM (model: records nonce and AAD)",
+  "psAesDecryptGCM (model: verdict chosen by the harness input; returns plaintext length or PS_AUTH_FAIL; assumption: a real tag mismatch makes it return < 0)"
+ ],
+ "mode": "proof",
+ "why_proof": "all loops have constant bounds (8, 12), fully unwound with unwinding assertions; the record is an allocation of exactly len bytes for EVERY 16-bit len (no loop of the function depends on len)",
+ "unwind": 14,
+ "native_replay": true,
+ "properties": [
+  "C10"
+ ]
 }
 @*/
 /* C02.U1  opening a TLS 1.3 AES-GCM record (RFC 8446 5.2/5.3): nonce = read_iv XOR
